@@ -5,8 +5,8 @@
    evaluate the instances in parallel; the ACTION_CONSTRAINT Emit prints the instance (evaluation
    vector, scripted alphas, query positions) together with what Fri.tla computes: number of layers,
    the folded positions and the opened rows of every layer, the remainder, and the verdict of the
-   (strict) verifier.  HonestAccepted (an invariant) is the completeness theorem at the explored
-   scope: the verdict of every supported honest instance is "accept" — a failure is a
+   (strict) verifier of Fri.tla.  Completeness at the explored scope — the verdict of every supported
+   honest instance is "accept" — is asserted by the check on the printed scenarios; a failure is a
    specification-level error (tool error), never a violation.
 
    Families
@@ -21,20 +21,30 @@
             number, seeded by SEED.
      "drp"  folding::apply_drp on its own: seeded polynomials of any degree below the domain size,
             arbitrary non-zero offsets, all folding factors.
-     "pos"  fold_positions / map_positions_to_indexes on seeded position lists. *)
+     "pos"  fold_positions / map_positions_to_indexes on seeded position lists.
+     "real" supported parameter combinations for the production fields f64 / f62 / f128, their
+            extensions and the hash functions available for each (the polynomial of the stated family is
+            drawn by the harness from `seed`, the coin is the real DefaultRandomCoin); the only
+            expectation is the verdict "accept", which is the completeness of the protocol for
+            supported parameters. *)
 EXTENDS Fri, Rand, Json
 
 CONSTANTS
-  DoEx1, DoEx3,     \* BOOLEAN: include the exhaustive families
+  Ex1B,             \* "ex1": values of the coefficient c1 (c0 runs over all of F_97); 0..96 = exhaustive
+  Ex3A, Ex3P,       \* "ex3": indexes (subsets of 1..4) of the alphas / position multisets used
+  BigLogNs, BigBlowups,  \* additional large domains (one variant per schedule)
   MinLogN, MaxLogN, \* domain sizes 2^MinLogN .. 2^MaxLogN of the "cfg" family (all schedules)
   Blowups, Foldings, RemDegs,
   Variants,         \* instances per configuration
-  NDrp, NPos        \* number of "drp" / "pos" cases
+  NDrp, NPos,       \* number of "drp" / "pos" cases
+  NReal, RealMaxLogN \* "real": instances over the production fields (verdict only), domain up to 2^RealMaxLogN
 
 BlowupsAll == {2, 4, 8, 16}
 FoldingsAll == {2, 4, 8, 16}
 RemDegsAll == 0..15
 RemDegsPow == {0, 1, 3, 7, 15}
+Ex1BQuick == {0, 1, 2, 3, 31, 48, 49, 64, 94, 95, 96}
+Ex1BAll == 0..96
 
 VARIABLES case, phase
 vars == <<case, phase>>
@@ -50,8 +60,10 @@ FieldsFor(n) == SelectSeq(AllP, LAMBDA P : FieldOK(P, n))
 \* remainder degree of an instance is drawn (seeded) among those of RemDegs that give L layers.
 RemSeq == SelectSeq([i \in 1..16 |-> i - 1], LAMBDA r : r \in RemDegs)
 RemsFor(n, B, N, L) == SelectSeq(RemSeq, LAMBDA r : Supported(40961, n, B, N, r) /\ NumLayers(n, B, N, r) = L)
-Cfgs == {c \in [n : {2 ^ k : k \in MinLogN..MaxLogN}, B : Blowups, N : Foldings, L : 0..10] :
-            c.n >= c.B /\ RemsFor(c.n, c.B, c.N, c.L) # <<>>}
+CfgsOf(logs, blowups) == {c \in [n : {2 ^ k : k \in logs}, B : blowups, N : Foldings, L : 0..10] :
+                            c.n >= c.B /\ RemsFor(c.n, c.B, c.N, c.L) # <<>>}
+Cfgs == CfgsOf(MinLogN..MaxLogN, Blowups)
+BigCfgs == CfgsOf(BigLogNs, BigBlowups)
 
 (***************************************************************************)
 (* seeded ingredients                                                      *)
@@ -103,7 +115,7 @@ MkInst(fam, P, d, n, B, N, R, poly, alphas, pos) ==
    dmax |-> (n \div B) - 1, poly |-> poly, alphas |-> alphas, pos |-> pos]
 WithEvals(c) ==
   [P |-> c.P, d |-> c.d, n |-> c.n, B |-> c.B, N |-> c.N, R |-> c.R, dmax |-> c.dmax, fam |-> c.fam,
-   evals |-> Force(PEvalDomain(c.P, c.poly, Offset(c.P), W(c.P, c.n), c.n, c.d), c.n), alphas |-> c.alphas, pos |-> c.pos]
+   evals |-> EvalsOver(c.P, c.d, c.poly, Offset(c.P), W(c.P, c.n), c.n), alphas |-> c.alphas, pos |-> c.pos]
 
 CfgInst(c, j) ==
   LET s == Stream(c.n + 3 * c.B + 5 * c.N + 7 * c.L, j)
@@ -123,12 +135,12 @@ CfgInst(c, j) ==
 S4 == <<0, 1, 2, 96>>
 Ex1Pos == << <<0>>, <<7, 3>>, <<1, 5, 1>>, <<6, 4, 2, 0>>, <<3, 3>> >>
 Ex1 == {MkInst("ex1", 97, 1, 8, 4, 2, 0, << <<a>>, <<b>> >>,
-               << <<(a * 7 + b * 3 + 1) % 97>>, <<0>> >>, Ex1Pos[1 + ((a + b) % 5)]) : a \in 0..96, b \in 0..96}
+               << <<(a * 7 + b * 3 + 1) % 97>>, <<0>> >>, Ex1Pos[1 + ((a + b) % 5)]) : a \in 0..96, b \in Ex1B}
 Ex3Alpha == << <<0>>, <<1>>, <<5>>, <<50>> >>
 Ex3Pos == << <<2>>, <<1, 5>>, <<7, 0, 7>>, <<0, 1, 2, 3, 4, 5, 6>> >>
 Ex3 == {MkInst("ex3", 97, 1, 8, 2, 2, 1,
                << <<S4[a]>>, <<S4[b]>>, <<S4[c]>>, <<S4[e]>> >>, <<Ex3Alpha[al], <<3>> >>, Ex3Pos[ps]) :
-           a \in 1..4, b \in 1..4, c \in 1..4, e \in 1..4, al \in 1..4, ps \in 1..4}
+           a \in 1..4, b \in 1..4, c \in 1..4, e \in 1..4, al \in Ex3A, ps \in Ex3P}
 
 \* apply_drp alone
 DrpCase(j) ==
@@ -153,13 +165,33 @@ PosCase(j) ==
   IN [op |-> "pos", n |-> n, N |-> N, parts |-> IF parts > n \div N THEN 1 ELSE parts,
       pos |-> [i \in 1..k |-> Rnd(s, 10 + i) % n]]
 
+\* production fields: name, extension degrees supported, hash functions defined for the field
+RealFields == << [f |-> "f64",  exts |-> <<1, 2, 3>>, hs |-> <<"blake3_256", "blake3_192", "sha3_256", "rp64_256", "rpjive64_256">>],
+                 [f |-> "f62",  exts |-> <<1, 2, 3>>, hs |-> <<"blake3_256", "blake3_192", "sha3_256", "rp62_248">>],
+                 [f |-> "f128", exts |-> <<1, 2>>,    hs |-> <<"blake3_256", "blake3_192", "sha3_256">>] >>
+AllBNR == {x \in [B : BlowupsAll, N : FoldingsAll, R : RemDegsAll] : TRUE}
+RealCase(j) ==
+  LET s == Stream(4003, j)
+      fld == RealFields[1 + (j % 3)]
+      n == 2 ^ (3 + (Rnd(s, 1) % (RealMaxLogN - 2)))
+      cands == SetToSeq({x \in AllBNR : n >= x.B /\ SupportedSched(n, x.B, x.N, x.R)})
+      x == cands[1 + (Rnd(s, 2) % Len(cands))]
+      nq0 == CASE j % 5 = 0 -> 1 [] j % 5 = 1 -> 2 + (Rnd(s, 3) % 6) [] OTHER -> 8 + (Rnd(s, 3) % 60)
+      nq == IF nq0 >= n THEN n - 1 ELSE nq0      \* draw_integers requires fewer values than the domain size
+  IN [op |-> "real", field |-> fld.f, ext |-> fld.exts[1 + (Rnd(s, 4) % Len(fld.exts))],
+      hasher |-> fld.hs[1 + ((j \div 3) % Len(fld.hs))], n |-> n, B |-> x.B, N |-> x.N, R |-> x.R,
+      dmax |-> (n \div x.B) - 1, L |-> NumLayers(n, x.B, x.N, x.R),
+      fam |-> (j + Rnd(s, 5)) % 6, nq |-> nq, seed |-> Rnd(s, 6), verdict |-> "accept"]
+
 Init ==
   /\ phase = 0
-  /\ \/ DoEx1 /\ case \in Ex1
-     \/ DoEx3 /\ case \in Ex3
+  /\ \/ case \in Ex1
+     \/ case \in Ex3
      \/ \E c \in Cfgs, j \in 1..Variants : case = [op |-> "cfg", c |-> c, j |-> j]
+     \/ \E c \in BigCfgs : case = [op |-> "cfg", c |-> c, j |-> 0]
      \/ \E j \in 1..NDrp : case = DrpCase(j)
      \/ \E j \in 1..NPos : case = PosCase(j)
+     \/ \E j \in 1..NReal : case = [op |-> "realcase", j |-> j]
 
 Next == phase = 0 /\ phase' = 1 /\ UNCHANGED case
 Spec == Init /\ [][Next]_vars
@@ -177,7 +209,7 @@ FriScenario(c0) ==
 
 DrpScenario(c) ==
   LET w == W(c.P, c.n)
-      ev == PEvalDomain(c.P, c.poly, c.off, w, c.n, c.d)
+      ev == EvalsOver(c.P, c.d, c.poly, c.off, w, c.n)
       exp == FoldEvals(c.P, c.d, ev, Coset(c.P, c.off, w, c.n), c.N, c.alpha)
   IN IF Assert(DrpLemma(c.P, c.d, c.poly, c.off, c.n, c.N, c.alpha), <<"coset and coefficient forms of the projection differ", c>>)
        THEN [op |-> "drp", P |-> c.P, d |-> c.d, n |-> c.n, N |-> c.N, off |-> c.off, alpha |-> c.alpha,
@@ -193,6 +225,7 @@ Scenario(c) == CASE c.op = "fri" -> FriScenario(c)
                  [] c.op = "cfg" -> FriScenario(CfgInst(c.c, c.j))
                  [] c.op = "drp" -> DrpScenario(c)
                  [] c.op = "pos" -> PosScenario(c)
+                 [] c.op = "realcase" -> RealCase(c.j)
 
 Emit == PrintT(<<"REPLAY", ToJson(Scenario(case))>>)
 
